@@ -12,6 +12,7 @@ import Proofs.C11_Norm
 import Proofs.C11_Reuss
 import Proofs.C11_Setters
 import Proofs.C11_Fixpoint
+import Proofs.C11_Axes
 
 namespace Atomman.C11
 open Atomman.Gen
